@@ -382,7 +382,7 @@ def main():
             cmd = [exe, "--prop", prop, "--out", outp, "--tier", tier, "--known", ",".join(known_sigs), "--seed", str(seed)] + sargs + [str(a) for a in t.get("args", [])]
             procs.append((cmd, penv, outp))
         with ThreadPoolExecutor(max_workers=max(1, nproc)) as ex:
-            results = list(ex.map(lambda p: run_proc(p[0], p[1], t.get("timeout", 1800)), procs))
+            results = list(ex.map(lambda p: run_proc(p[0], p[1], t.get("timeout", 900 if tier == "quick" else 7200)), procs))
         stage_eval = 0
         for (cmd, penv, outp), (rc, out, wall, timed_out) in zip(procs, results):
             res = None
